@@ -147,9 +147,9 @@ func randOpts(r *rng) []opt {
 		n = r.rng(1, 6)
 	}
 	for i := 0; i < n; i++ {
-		k := r.intn(8)
+		k := r.intn(9)
 		if ecsHeavy && r.coin(50) {
-			k = r.intn(3)
+			k = []int{0, 1, 2, 8}[r.intn(4)]
 		}
 		switch k {
 		case 0: // ECS v4/32
@@ -169,6 +169,14 @@ func randOpts(r *rng) []opt {
 			opts = append(opts, opt{0xfde9, r.bytes([]int{6, 6, 6, 0, 8, 3}[r.intn(6)])})
 		case 4: // short ECS
 			opts = append(opts, opt{8, r.bytes(r.intn(8))})
+		case 8: // ECS claiming a full-length prefix with fewer address bytes than that (or more)
+			if r.coin(50) {
+				d := []byte{0, 1, 32, byte(r.intn(2) * 32)}
+				opts = append(opts, opt{8, append(d, r.bytes([]int{0, 1, 2, 3, 3, 5, 7}[r.intn(7)])...)})
+			} else {
+				d := []byte{0, 2, 128, byte(r.intn(2) * 128)}
+				opts = append(opts, opt{8, append(d, r.bytes([]int{0, 3, 4, 8, 15, 15, 17}[r.intn(7)])...)})
+			}
 		default:
 			opts = append(opts, opt{[]int{10, 12, 15, 3, 65001, 0xffff, 0}[r.intn(7)], r.bytes(r.intn(20))})
 		}
